@@ -21,6 +21,21 @@ Tie to /repo's current tree:
  (d) heap: allocation-volume programs over heap sizes from 1 upward: normal identical result
      or "out of memory"/status 1 with the heap really full and cell 0 untouched; never a
      sanitizer report, assert or signal.
+ (e) entry functions with 0..k parameters (nev_prepare_argc_argv; PUSH_PARAM pushes k slots, the
+     only handler whose slot count is chosen by the embedder): they go through (c) like every other
+     program (model prediction, ASan on the exact malloc(stack_size * sizeof(gc_stack)) of vm_new,
+     whose byte size every run audits) and, independently of the model, through EVERY stack size
+     0..peak+7 with guard slots on both sides of the configured stack (limrun --redzone): the run
+     completes like the reference or stops with 'stack too large'/exit 1, and no guard slot
+     changed.  Properties_C14b.v (VM/StackBoundParam.v) states what a check hoisted behind the
+     push loop does to the model: it differs exactly on the window sp < size <= sp + k, by storing
+     to slots size..sp+k — the sizes this sweep covers.
+ (f) the command-line tool (main.c -> nev_compile_*_and_exec -> vm_new): probe programs whose stack
+     demand and heap boundary are measured through the API are run by the tree's `never` with
+     -s S -m M | -m M -s S | -s S | -m M | nothing (and -f first / -sN attached / -e text), S and M
+     around the measured needs and the tool's defaults; every run must equal the API run with
+     stack S (default if absent) and heap M (default if absent): same status and text, or the same
+     diagnostic with status 1 and, in the `machine:` dump, the configured stack_size/mem_size.
 """
 import collections
 import os
@@ -84,8 +99,10 @@ class Tools:
     def path(self, pid, suffix):
         return os.path.join(self.tmp, re.sub(r"[^A-Za-z0-9_.-]", "_", pid) + suffix)
 
-    def lim(self, src, pairs, stdin=None, trace=None, dump=None, timeout=40, max_steps=3000000):
-        """run limrun; returns (compile_rc, [records])"""
+    def lim(self, src, pairs, stdin=None, trace=None, dump=None, timeout=40, max_steps=3000000, opts=None, redzone=0):
+        """run limrun; returns (compile_rc, [records]).  opts = {"entry": name, "args": [words]} selects the
+        entry function and its parameters (nev_prepare_argc_argv); redzone = guard slots on both sides of
+        the configured stack"""
         recs = []
         comp = None
         for k in range(0, max(len(pairs), 1), 120):
@@ -97,6 +114,12 @@ class Tools:
                 cmd += ["--trace", trace]
             if k == 0 and dump:
                 cmd += ["--dump", dump]
+            if opts and opts.get("entry"):
+                cmd += ["--entry", opts["entry"]]
+            for a in (opts or {}).get("args", []):
+                cmd += ["--arg", a]
+            if redzone:
+                cmd += ["--redzone", str(redzone)]
             cmd += [src] + ["%d:%d" % p for p in chunk]
             try:
                 p = subprocess.run(cmd, stdout=subprocess.PIPE, stderr=subprocess.PIPE, env=ENV,
@@ -166,6 +189,9 @@ def parse_rec(line):
          "ret": None if f.get("ret", "-") == "-" else int(f["ret"]),
          "result": f.get("result", "-"), "nilcell": int(f.get("nilcell", 0)),
          "heap": tuple(int(x) for x in f.get("heap", "0,0,0").split(","))}
+    r["rz"] = None
+    if f.get("rz", "-") != "-":
+        r["rz"] = tuple(int(x) for x in f["rz"].split(","))       # front guard, back guard, first index >= size
     r["extent"] = []
     if f.get("extent", "-") != "-":
         for nm, pair in zip(("machine->stack", "collector->mem", "collector->wb_list[0]", "collector->wb_list[1]"),
@@ -214,6 +240,12 @@ def strip_machine_dump(out):
     return out[:k] if k >= 0 else out
 
 
+def replay_opts(opts):
+    if not opts:
+        return ""
+    return "".join(["--entry %s " % opts["entry"]] + ["--arg %s " % a for a in opts.get("args", [])])
+
+
 def first_line(err, pat):
     for l in err.decode(errors="replace").splitlines():
         if pat in l:
@@ -225,6 +257,251 @@ def brief(r):
     return {"mem": r["mem"], "stack": r["stack"], "kind": r["kind"], "status": r["status"], "steps": r["steps"],
             "last_ip": r["last_ip"], "last_sp": r["last_sp"], "last_op": r["last_op"],
             "stderr": r["err"].decode(errors="replace")[:1500], "stdout_tail": r["out"].decode(errors="replace")[-300:]}
+
+
+def tool_defaults():
+    """DEFAULT_VM_MEM_SIZE, DEFAULT_VM_STACK_SIZE of the tree under check (include/nev.h)"""
+    txt = open(os.path.join(common.REPO, "include", "nev.h")).read()
+    m = re.search(r"#define\s+DEFAULT_VM_MEM_SIZE\s+(\d+)", txt)
+    s_ = re.search(r"#define\s+DEFAULT_VM_STACK_SIZE\s+(\d+)", txt)
+    return (int(m.group(1)) if m else None, int(s_.group(1)) if s_ else None)
+
+
+def cli_kind(rc, err):
+    if b"AddressSanitizer" in err:
+        return "asan"
+    if b"runtime error" in err:
+        return "ubsan"
+    if rc < 0:
+        return "signal"
+    if b"Assertion" in err:
+        return "assert"
+    if rc == 1 and err == b"stack too large\n":
+        return "stack-limit"
+    if rc == 1 and err == b"out of memory\n":
+        return "oom"
+    if b"stack too large" in err:
+        return "stack-limit-dirty"
+    if b"out of memory" in err:
+        return "oom-dirty"
+    if err == b"":
+        return "complete"
+    return "other"
+
+
+def dump_sizes(out):
+    """(stack_size, mem_size) printed by vm_print in the `machine:` block of a reported limit"""
+    k = out.rfind(b"machine:\n")
+    if k < 0:
+        return None
+    a = re.search(rb"stack_size:\s*(\d+)", out[k:])
+    b = re.search(rb"mem_size:\s*(\d+)", out[k:])
+    return (int(a.group(1)) if a else None, int(b.group(1)) if b else None)
+
+
+def cli_family(ctx, T, stats, nontrivial):
+    """The tool's configuration path (main.c -> nev_compile_*_and_exec -> vm_new).  Probe programs whose stack
+    demand D and heap boundary (Hlo = out of memory, Hhi = Hlo+1 completes) are MEASURED through the API
+    (limrun = vm_new(M, S) + nev_execute).  For a grid of S and M around D, Hlo/Hhi and the tool's defaults the
+    tool is run with  -s S -m M | -m M -s S | -s S | -m M | nothing  (plus -f first, attached -sS -mM, -e text on
+    a seeded subset) and must behave exactly like the API run with stack S (default when -s is absent) and heap M
+    (default when -m is absent): same result status and text, or the same diagnostic with status 1."""
+    import random
+    never = os.path.join(T.lib, "never")
+    dm, ds = tool_defaults()
+    info = {"defaults": {"mem": dm, "stack": ds}, "probes": [], "unfilled_roles": []}
+    if not os.path.exists(never) or not dm or not ds:
+        ctx.correspondence_broken("cli:tool-or-defaults-missing", {"never": never, "defaults": [dm, ds]})
+        return info
+    # the usage text prints the defaults the binary was built with
+    try:
+        u = subprocess.run([never], stdout=subprocess.PIPE, stderr=subprocess.STDOUT, env=ENV, timeout=30).stdout.decode(errors="replace")
+    except Exception as e:      # noqa
+        u = ""
+    mu = re.search(r"memory size \(default: (\d+)\).*stack size \(default: (\d+)\)", u)
+    info["usage_defaults"] = [int(mu.group(1)), int(mu.group(2))] if mu else None
+
+    cands = c14progs.cli_candidates(ctx.tier, ctx.rng)
+    role_seed = {role: ctx.rng.randrange(1 << 30) for role in sorted(cands)}
+
+    def section(path, opts, lo, hi, axis):
+        """lo does not complete, hi completes: smallest completing size in (lo, hi] assuming an upward closed set
+        near the boundary; returns (hi, runs)"""
+        runs = 0
+        while hi - lo > 1:
+            pts = sorted({lo + (hi - lo) * k // 9 for k in range(1, 9)} - {lo, hi})
+            pairs = [(MEM_BIG, x) for x in pts] if axis == "stack" else [(x, STACK_BIG) for x in pts]
+            _, rr = T.lim(path, pairs, opts=opts, timeout=120)
+            runs += len(rr)
+            if len(rr) != len(pts):
+                return None, runs
+            ok = [r[axis if axis == "stack" else "mem"] for r in rr if r["kind"] == "complete"]
+            if ok:
+                hi = min(ok)
+            bad = [r[axis if axis == "stack" else "mem"] for r in rr if r["kind"] != "complete" and r[axis if axis == "stack" else "mem"] < hi]
+            if bad:
+                lo = max(bad)
+        return hi, runs
+
+    def measure(p):
+        pid, src = p[0], p[1]
+        opts = p[4] if len(p) > 4 else None
+        path = T.path("cli_" + pid, ".nev")
+        with open(path, "w") as f:
+            f.write(src)
+        comp, recs = T.lim(path, [(MEM_BIG, STACK_BIG)], opts=opts, timeout=120)
+        if comp != 0 or not recs or recs[0]["kind"] != "complete":
+            return None
+        ref = recs[0]
+        D, _ = section(path, opts, 0, ref["peak"] + 8, "stack")
+        Hhi, _ = section(path, opts, 1, MEM_BIG, "heap")
+        if D is None or Hhi is None:
+            return None
+        return {"id": pid, "src": src, "opts": opts, "path": path, "ref": ref, "D": D, "Hhi": Hhi, "Hlo": Hhi - 1}
+
+    def fits(role, m):
+        D, Hhi = m["D"], m["Hhi"]
+        near = (3 * ds) // 4 < D <= ds
+        return {"stack-near-default": near and Hhi <= dm,
+                "stack-over-default": D > ds and Hhi <= dm,
+                "heap-light": near and Hhi < D - 5,
+                "heap-heavy": D <= (3 * ds) // 4 and ds + 20 < Hhi <= dm,
+                "heap-over-default": D <= ds and Hhi > dm}.get(role, True)
+
+    def pick(role):
+        tried = []
+        for p in cands[role]:
+            m = measure(p)
+            tried.append({"id": p[0], "stack_demand": m["D"] if m else None, "smallest_completing_heap": m["Hhi"] if m else None})
+            if m and fits(role, m):
+                m["role"], m["tried"] = role, tried
+                return m
+        return {"role": role, "tried": tried, "id": None}
+
+    probes = vmcheck.pmap(pick, sorted(cands), workers=8)
+    jobs = []
+    for m in probes:
+        if m["id"] is None:
+            info["unfilled_roles"].append({"role": m["role"], "tried": m["tried"]})
+            continue
+        rng = random.Random(role_seed[m["role"]])
+        D, Hlo, Hhi = m["D"], m["Hlo"], m["Hhi"]
+        svals = sorted({x for x in (D - 1, D, D + 7, Hlo, Hhi, 4 * ds, (3 * ds) // 4) if x >= 1}) + [None]
+        mvals = sorted({x for x in (Hlo, Hhi, Hhi + 50, D - 1, D, 2 * dm, (3 * ds) // 4) if x >= 1}) + [None]
+        pairs = [(M, S) for M in mvals for S in svals]
+        _, recs = T.lim(m["path"], [(M or dm, S or ds) for M, S in pairs], opts=m["opts"], timeout=300)
+        api = {(r["mem"], r["stack"]): r for r in recs}
+        m["pairs"] = len(pairs)
+        words = list((m["opts"] or {}).get("args", []))
+        oneline = "\"" not in m["src"] and not words
+        for (M, S) in pairs:
+            exp = api.get((M or dm, S or ds))
+            if exp is None:
+                ctx.correspondence_broken("cli:api-run-missing:%s" % m["id"], {"mem": M, "stack": S})
+                continue
+            forms = []
+            fopt = ["-f", m["path"]]
+            if S is not None and M is not None:
+                forms += [("-s,-m", ["-s", str(S), "-m", str(M)] + fopt), ("-m,-s", ["-m", str(M), "-s", str(S)] + fopt)]
+                extra = [("-f,-s,-m", fopt + ["-s", str(S), "-m", str(M)]), ("-f,-m,-s", fopt + ["-m", str(M), "-s", str(S)]),
+                         ("-sN,-mN", ["-s%d" % S, "-m%d" % M] + fopt), ("-mN,-sN", ["-m%d" % M, "-s%d" % S] + fopt),
+                         ("-s,-f,-m", ["-s", str(S)] + fopt + ["-m", str(M)]), ("-m,-f,-s", ["-m", str(M)] + fopt + ["-s", str(S)])]
+                if oneline:
+                    extra += [("-s,-m,-e", ["-s", str(S), "-m", str(M), "-e", m["src"]]), ("-m,-s,-e", ["-m", str(M), "-s", str(S), "-e", m["src"]])]
+                forms += rng.sample(extra, 2)
+            elif S is not None:
+                forms += [("-s", ["-s", str(S)] + fopt), ("-f,-s", fopt + ["-s", str(S)])]
+                if oneline:
+                    forms += [("-s,-e", ["-s", str(S), "-e", m["src"]])]
+            elif M is not None:
+                forms += [("-m", ["-m", str(M)] + fopt), ("-f,-m", fopt + ["-m", str(M)])]
+                if oneline:
+                    forms += [("-m,-e", ["-m", str(M), "-e", m["src"]])]
+            else:
+                forms += [("none", list(fopt))] + ([("-e", ["-e", m["src"]])] if oneline else [])
+            for form, argv in forms:
+                jobs.append((m, M, S, exp, form, argv + words))
+
+    def run_cli(job):
+        m, M, S, exp, form, argv = job
+        try:
+            p = subprocess.run([never] + argv, stdin=subprocess.DEVNULL, stdout=subprocess.PIPE, stderr=subprocess.PIPE,
+                               env=ENV, timeout=120, cwd=T.tmp)
+            return p.returncode, p.stdout, p.stderr
+        except subprocess.TimeoutExpired:
+            return None, b"", b"timeout"
+
+    outs = vmcheck.pmap(run_cli, jobs, workers=16)
+    per_form = collections.Counter()
+    kinds = collections.Counter()
+    for (m, M, S, exp, form, argv), (rc, out, err) in zip(jobs, outs):
+        stats["cli_runs"] += 1
+        per_form[form] += 1
+        obs = "timeout" if rc is None else cli_kind(rc, err)
+        if exp["kind"] not in ("complete", "stack-limit", "oom"):
+            stats["cli_runs_without_api_verdict"] += 1       # reported by the API families
+            continue
+        kinds[exp["kind"]] += 1
+        # stable key: which of the two options are given and in which order (the position of -f, the attached
+        # spelling -sN and -e are variations of the same configuration path)
+        order = ("-s,-m" if form.replace("N", "").find("-s") < form.replace("N", "").find("-m") else "-m,-s") if (S is not None and M is not None) \
+            else "-s" if S is not None else "-m" if M is not None else "none"
+        shown = ["never"] + [a if a != m["src"] else "<program text>" for a in argv]
+        shown = [("<program>" if a == m["path"] else a) for a in shown]
+        rep = {"program": m["src"], "argv": shown, "role": m["role"], "stack_option": S, "mem_option": M,
+               "tool_defaults": {"mem": dm, "stack": ds}, "measured_through_the_api": {"stack_demand": m["D"], "largest_heap_out_of_memory": m["Hlo"],
+                                                                                 "smallest_heap_completing": m["Hhi"]},
+               "api_run": dict(brief(exp), result=exp["result"]), "tool_run": {"status": rc, "kind": obs, "stderr": err.decode(errors="replace")[:1200],
+                                                                                 "stdout_tail": out.decode(errors="replace")[-400:]},
+               "replay": "%s   vs   limrun %s<program> %d:%d" % (" ".join(shown), replay_opts(m["opts"]), M or dm, S or ds)}
+        want = {"complete": "result %s, the same text, no diagnostic" % exp["result"],
+                "stack-limit": "'stack too large' and status 1", "oom": "'out of memory' and status 1"}[exp["kind"]]
+        eff = "stack %s, heap %s" % ("%d" % S if S is not None else "%d (default)" % ds, "%d" % M if M is not None else "%d (default)" % dm)
+        if obs != exp["kind"]:
+            ds_ = dump_sizes(out)
+            rep["sizes_in_the_machine_dump_of_the_tool_run"] = ds_
+            cls = ("limit-not-enforced" if obs == "complete" else "spurious-limit" if exp["kind"] == "complete" and obs in ("stack-limit", "oom")
+                   else "wrong-limit" if obs in ("stack-limit", "oom") else obs)
+            ctx.violation("cli:%s:%s" % (order, cls),
+                          "C14: `%s` (%s: stack demand %d, heap %d cells) must give %s as vm_new(%d, %d) does through the API (%s); the tool %s%s"
+                          % (" ".join(shown), m["id"], m["D"], m["Hhi"], want, M or dm, S or ds, eff,
+                             {"complete": "runs to completion with status %s" % rc, "stack-limit": "stops with 'stack too large'",
+                              "oom": "stops with 'out of memory'"}.get(obs, "ends as %s (status %s)" % (obs, rc)),
+                             " (machine dump: stack_size %s, mem_size %s)" % ds_ if ds_ else ""), rep)
+            continue
+        if exp["kind"] == "complete":
+            t, v = exp["result"].split(":")
+            want_rc = int(v) & 0xFF if t == "1" else None           # OBJECT_INT: the status is the result
+            if out != exp["out"] or (want_rc is not None and rc != want_rc):
+                ctx.violation("cli:%s:size-changes-result" % order,
+                              "C14: `%s` fits its limits (%s) but prints/returns something else than the API run (status %s, expected %s)"
+                              % (" ".join(shown), eff, rc, want_rc), rep)
+                continue
+        else:
+            if rc == 0 or strip_machine_dump(out) != strip_machine_dump(exp["out"]):
+                ctx.violation("cli:%s:limit-output" % order,
+                              "C14: `%s`: the limit is reported but status/text differ from the API run (status %s)" % (" ".join(shown), rc), rep)
+                continue
+            dsz = dump_sizes(out)
+            if dsz and dsz != (S or ds, M or dm):
+                rep["sizes_in_the_machine_dump_of_the_tool_run"] = dsz
+                ctx.violation("cli:%s:enforced-sizes" % order,
+                              "C14: `%s`: the limit was reported by a machine with stack_size %s and mem_size %s; configured are %s"
+                              % (" ".join(shown), dsz[0], dsz[1], eff), rep)
+                continue
+        nontrivial.add(("cli", m["id"], form, exp["kind"]))
+    for m in probes:
+        if m["id"] is not None:
+            info["probes"].append({"role": m["role"], "program": m["id"], "stack_demand": m["D"], "largest_heap_out_of_memory": m["Hlo"],
+                                   "smallest_heap_completing": m["Hhi"], "size_pairs": m.get("pairs"), "entry_args": (m["opts"] or {}).get("args")})
+    info["runs_per_form"] = dict(per_form)
+    info["expected_kinds"] = dict(kinds)
+    if not info["probes"]:
+        ctx.correspondence_broken("cli:no-probe-program", info["unfilled_roles"])
+    elif info["probes"]:
+        p0 = [q for q in info["probes"] if q["role"] in ("heap-light", "stack-near-default")][:1] or info["probes"][:1]
+        ctx.sample(dict(p0[0], kind="command-line tool", forms=sorted(per_form)))
+    return info
 
 
 # =================================================================================================
@@ -281,18 +558,22 @@ def _run(ctx, T):
                     q = l.split()
                     code.append((int(q[2]), int(q[3])))
         out = {}
-        k = 0
+        steps = []
         with open(trace) as f:
             for l in f:
                 if l.startswith("t "):
                     q = l.split()
-                    ip, sp = int(q[1]), int(q[2])
-                    if 0 <= ip < len(code):
-                        op, w0 = code[ip]
-                        key = (op, w0 if op == op_build_in else None)
-                        if key in suspects:
-                            out.setdefault(key, []).append((k, sp))
-                    k += 1
+                    steps.append((int(q[1]), int(q[2])))
+        for k, (ip, sp) in enumerate(steps):
+            if 0 <= ip < len(code):
+                op, w0 = code[ip]
+                key = (op, w0 if op == op_build_in else None)
+                if key in suspects:
+                    # a handler that pushes a run-time number of slots (PUSH_PARAM: the parameters of the
+                    # entry function) is only exercised by an execution that pushes something
+                    if suspects[key].get("model_shape") == "ShPushN" and not (k + 1 < len(steps) and steps[k + 1][1] > sp):
+                        continue
+                    out.setdefault(key, []).append((k, sp))
         return out
 
     # ---- corpus witnesses: traces under a big stack -----------------------------------------------
@@ -407,19 +688,24 @@ def _run(ctx, T):
         ["no_write_outside_stack_refuted", "no_write_outside_stack_partial", "no_write_outside_stack_variant"]
         if pinned_any else ["no_write_outside_stack"]) + [
         "run_plans_monotone", "run_plans_demand", "run_plans_fires_iff_needed", "limit_monotone_stack",
-        "limit_monotone_completes", "limit_fires_iff_needed", "limited_run_never_oob", "oom_reported"]
+        "limit_monotone_completes", "limit_fires_iff_needed", "limited_run_never_oob", "oom_reported",
+        "every_write_below_checked_bound", "written_in_range", "push_param_plan", "pushn_checked_outcome",
+        "pushn_hoisted_outcome", "pushn_hoisted_differs_iff_window"]
 
     # ---- (c) stack: programs straddling the limit ------------------------------------------------
     P = [("corpus/" + WITNESS[k], open(os.path.join(CORPUS, WITNESS[k])).read(),
           open(wit[k]["stdin"]).read() if wit[k]["stdin"] else None, ["corpus", k]) for k in IRR]
     P += c14progs.stack_programs(ctx.tier, ctx.rng)
     P += c14progs.twod_programs(ctx.tier, ctx.rng)
+    EP = c14progs.entry_programs(ctx.tier, ctx.rng)          # entry functions with 0..k parameters (PUSH_PARAM pushes k slots)
+    P += EP
     exhaustive_upto = 140 if quick else 700
     rnd_sizes = 10 if quick else 60
     seeds = {p[0]: ctx.rng.randrange(1 << 30) for p in P}
 
     def stack_case(p):
-        pid, src, stdin, tags = p
+        pid, src, stdin, tags = p[:4]
+        opts = p[4] if len(p) > 4 else None
         import random
         rng = random.Random(seeds[pid])
         res = {"id": pid, "tags": tags, "events": [], "runs": 0, "limit_ops": collections.Counter(), "nontrivial": False}
@@ -432,7 +718,7 @@ def _run(ctx, T):
             with open(sin, "w") as f:
                 f.write(stdin)
         dump, trace = T.path(pid, ".code"), T.path(pid, ".trace")
-        comp, recs = T.lim(path, [(MEM_BIG, STACK_BIG)], stdin=sin, trace=trace, dump=dump)
+        comp, recs = T.lim(path, [(MEM_BIG, STACK_BIG)], stdin=sin, trace=trace, dump=dump, opts=opts)
         res["runs"] += len(recs)
         if comp != 0 or not recs:
             res["events"].append(("skip", "does not compile/prepare (%s)" % comp, None))
@@ -462,7 +748,7 @@ def _run(ctx, T):
             return res
         D = pr["demand"]
         res["demand"], res["peak"], res["steps"] = D, peak, ref["steps"]
-        res["path"], res["sin"], res["ref"], res["src"] = path, sin, ref, src
+        res["path"], res["sin"], res["ref"], res["src"], res["opts"] = path, sin, ref, src, opts
         if D not in sizes:
             sizes = sorted(set(sizes) | {max(0, D - 1), D, D + 1})
             pr = T.predict(dump, trace, bits, sizes)
@@ -475,7 +761,7 @@ def _run(ctx, T):
         got = {}
         unexpected = 0
         for k in range(0, len(todo), 48):
-            _, recs = T.lim(path, [(MEM_BIG, s) for s in todo[k:k + 48]], stdin=sin)
+            _, recs = T.lim(path, [(MEM_BIG, s) for s in todo[k:k + 48]], stdin=sin, opts=opts)
             res["runs"] += len(recs)
             for r in recs:
                 got[r["stack"]] = r
@@ -494,7 +780,9 @@ def _run(ctx, T):
                 res["events"].append(("broken", "missing-run", {"program": src, "stack": s}))
                 continue
             rep = {"program": src, "stdin": stdin, "stack_size": s, "mem_size": MEM_BIG, "model": e,
-                   "model_demand": D, "observed": brief(r), "replay": "limrun <program> %d:%d" % (MEM_BIG, s)}
+                   "model_demand": D, "observed": brief(r), "replay": "limrun %s<program> %d:%d" % (replay_opts(opts), MEM_BIG, s)}
+            if opts:
+                rep["entry"], rep["entry_args"] = opts.get("entry"), opts.get("args")
             opn = T.opname(r["last_op"]).replace("BYTECODE_", "").lower()
             if r["kind"] in ("asan", "ubsan", "signal", "assert"):
                 irr = [k for k in IRR if T.names.index(IRR_OPNAME[k]) == r["last_op"] and variant[k] == "pinned"
@@ -549,7 +837,7 @@ def _run(ctx, T):
             lo, hi = 0, peak + 6            # lo fails (ALLOC 30 on an empty stack), hi completes
             while hi - lo > 1:
                 pts = sorted({lo + (hi - lo) * k // 9 for k in range(1, 9)} - {lo, hi})
-                _, rr = T.lim(path, [(MEM_BIG, s) for s in pts], stdin=sin)
+                _, rr = T.lim(path, [(MEM_BIG, s) for s in pts], stdin=sin, opts=opts)
                 res["runs"] += len(rr)
                 for r in rr:
                     if r["kind"] == "complete":
@@ -595,7 +883,7 @@ def _run(ctx, T):
         limit_ops.update(res["limit_ops"])
         if res["nontrivial"] and not any(ev[0] in ("broken", "violation") for ev in res["events"]):
             nontrivial.add((res["id"], "stack"))
-            if samples < 2 or (samples < 4 and not res.get("exhaustive")):
+            if samples < 1 or (samples < 2 and not res.get("exhaustive")):
                 samples += 1
                 ctx.sample({"program": res["id"], "kind": "stack", "model_demand": res.get("demand"),
                             "peak_sp": res.get("peak"), "instructions": res.get("steps"),
@@ -611,7 +899,7 @@ def _run(ctx, T):
         D, ref = res["demand"], res["ref"]
         mems = sorted({m for m in (D - 1, (3 * D) // 4, D // 2, D // 3, 100, 130) if 2 <= m < D})
         pairs = [(m, D + 2) for m in mems] + [(m, D) for m in mems[-1:]]
-        _, recs = T.lim(res["path"], pairs, stdin=res["sin"])
+        _, recs = T.lim(res["path"], pairs, stdin=res["sin"], opts=res.get("opts"))
         out["runs"] = len(recs)
         for r in recs:
             rep = {"program": res["src"], "mem_size": r["mem"], "stack_size": r["stack"], "model_demand": D,
@@ -642,6 +930,96 @@ def _run(ctx, T):
             nontrivial.add((o["id"], "mem<stack"))
         for ev in o["events"]:
             ctx.violation(ev[1], ev[2], ev[3])
+
+    # ---- (e) entry functions with parameters: every stack size, guard slots around the configured stack ----
+    # PUSH_PARAM pushes the k parameters of the entry function: the only handler whose slot count is
+    # chosen at nev_prepare time.  Independent of the model: for EVERY size the run either completes like
+    # the reference or stops with 'stack too large'/exit 1, and no slot outside [0, size) was stored to
+    # (limrun --redzone: guard slots before slot 0 and from slot `size` on, compared at exit).
+    RZ = 64
+    op_push_param = T.names.index("BYTECODE_PUSH_PARAM") if "BYTECODE_PUSH_PARAM" in T.names else -1
+    entry_ids = {p[0] for p in EP}
+
+    def entry_case(res):
+        out = {"id": res["id"], "events": [], "runs": 0, "window": 0, "sizes": 0, "k": len((res.get("opts") or {}).get("args", []))}
+        if res["id"] not in entry_ids or "path" not in res:
+            return out
+        ref, opts, src = res["ref"], res["opts"], res["src"]
+        sizes = list(range(0, res["peak"] + 8))
+        _, recs = T.lim(res["path"], [(MEM_BIG, s_) for s_ in sizes], stdin=res["sin"], opts=opts, redzone=RZ)
+        out["runs"] = len(recs)
+        got = {r["stack"]: r for r in recs}
+        completes = []
+        for s_ in sizes:
+            r = got.get(s_)
+            if r is None:
+                out["events"].append(("broken", "entry-missing-run", {"program": src, "stack": s_}))
+                continue
+            out["sizes"] += 1
+            opn = T.opname(r["last_op"]).replace("BYTECODE_", "").lower()
+            rep = {"program": src, "entry": opts.get("entry"), "entry_args": opts.get("args"), "stack_size": s_,
+                   "mem_size": MEM_BIG, "guard_slots_each_side": RZ, "observed": brief(r),
+                   "replay": "limrun --redzone %d %s<program> %d:%d  -> rz=<front guard slots changed>,<back guard slots changed>,<first index>"
+                             % (RZ, replay_opts(opts), MEM_BIG, s_)}
+            if r["rz"] is None:
+                out["events"].append(("broken", "entry-no-guard-report", rep))
+                continue
+            front, back, first = r["rz"]
+            if front or back:
+                rep["slots_written_before_slot_0"], rep["slots_written_at_or_after_stack_size"], rep["first_slot_outside"] = front, back, first
+                rep["expected"] = "no store outside slots 0..%d; 'stack too large' + exit 1, or the reference result" % (s_ - 1)
+                out["events"].append(("violation", "stack-write-outside:" + opn,
+                                      "C14: %s(%s) with stack size %d: %s stored to %d slot(s) outside the configured stack (first: slot %d) "
+                                      "before the run ended as %s" % (opts.get("entry"), ", ".join(opts.get("args", [])), s_, T.opname(r["last_op"]),
+                                                                     front + back, first if back else -1, r["kind"]), rep))
+                continue
+            if r["kind"] == "complete":
+                completes.append(s_)
+                if not (r["out"] == ref["out"] and r["result"] == ref["result"] and r["ret"] == ref["ret"] and r["steps"] == ref["steps"]):
+                    rep["reference"] = brief(ref)
+                    out["events"].append(("violation", "stack-size-changes-result",
+                                          "C14: %s gives a different result with stack size %d than with %d" % (res["id"], s_, STACK_BIG), rep))
+            elif r["kind"] == "stack-limit":
+                if not ref["out"].startswith(strip_machine_dump(r["out"])):
+                    out["events"].append(("violation", "stack-limit-output",
+                                          "C14: %s at stack size %d printed text that the full run does not print before the limit" % (res["id"], s_), rep))
+                elif r["last_op"] == op_push_param:
+                    out["window"] += 1
+            else:
+                out["events"].append(("violation", "stack-limit-diagnostic:" + r["kind"],
+                                      "C14: %s at stack size %d ends as %s (%s) instead of completing or 'stack too large'/exit 1"
+                                      % (res["id"], s_, r["kind"], r["status"]), rep))
+        if completes and completes != list(range(min(completes), sizes[-1] + 1)) and not out["events"]:
+            bad = [x for x in range(min(completes), sizes[-1] + 1) if x not in completes]
+            out["events"].append(("violation", "stack-limit-not-monotone",
+                                  "C14: %s completes with stack size %d but not with %d" % (res["id"], min(completes), bad[0]),
+                                  {"program": src, "entry": opts.get("entry"), "entry_args": opts.get("args"), "completes_at": min(completes),
+                                   "observed": brief(got[bad[0]])}))
+        if completes and not out["events"] and not any(ev[0] in ("broken", "violation") for ev in res["events"]) \
+                and min(completes) != res["demand"]:
+            out["events"].append(("broken", "entry-demand", {"program": src, "model_demand": res["demand"], "smallest_completing": min(completes)}))
+        return out
+
+    eres = vmcheck.pmap(entry_case, results, workers=16)
+    es = 0
+    for o in eres:
+        stats["entry_runs_with_guard_slots"] += o["runs"]
+        stats["entry_sizes_where_limit_fires_in_push_param"] += o["window"]
+        for ev in o["events"]:
+            if ev[0] == "broken":
+                ctx.correspondence_broken("entry:%s:%s" % (ev[1], o["id"]), ev[2])
+            else:
+                ctx.violation(ev[1], ev[2], ev[3])
+        if o["window"] and not o["events"]:
+            nontrivial.add((o["id"], "entry-window"))
+            if es < 1 and o["k"] >= 3:
+                es += 1
+                ctx.sample({"program": o["id"], "kind": "entry-parameters", "parameters": o["k"], "stack_sizes_run": o["sizes"],
+                            "sizes_where_PUSH_PARAM_reports_the_limit": o["window"], "guard_slots_changed": 0})
+
+    # ---- (f) the command-line tool: -s and -m in every order and combination, and their absence ----------
+    cli = cli_family(ctx, T, stats, nontrivial)
+    ctx.notes["cli"] = cli
 
     # ---- (d) heap ----------------------------------------------------------------------------------
     H = c14progs.heap_programs(ctx.tier, ctx.rng)
@@ -799,10 +1177,19 @@ def _run(ctx, T):
         "instruction i) and with the run under mem=%d stack=%d.  non-trivial = distinct (program, limit kind) where the limit fired at "
         "least once AND the program completed at a larger size; two-dimensional points: heap size below the stack demand, stack = demand+2, on "
         "every program, incl. a family that pushes one shared cell many times (completes with ~130 cells and hundreds of slots); every run audits "
-        "the byte size of the four arrays vm_new allocated against the configured sizes" % (exhaustive_upto, rnd_sizes, len(mems), MEM_BIG, STACK_BIG))
+        "the byte size of the four arrays vm_new allocated against the configured sizes.  entry functions with 0..10 parameters of type "
+        "int/float/string/[string] (main and other entry names, seeded mixes): all of the above plus every stack size 0..peak+7 with %d guard "
+        "slots on each side of the configured stack; non-trivial there = the limit is reported inside PUSH_PARAM for at least one size and no "
+        "guard slot changed.  command-line tool: one probe per role (demand near/over the default stack, heap-light, heap-heavy, heap over the "
+        "default, entry arguments, exit status) chosen by MEASURING demand and heap boundary through the API; sizes {D-1, D, D+7, Hlo, Hhi, "
+        "3/4 and 4x default stack} x {Hlo, Hhi, Hhi+50, D-1, D, 2x default heap, 3/4 default stack} and absent, both option orders + 2 seeded "
+        "spellings; non-trivial = distinct (probe, spelling, expected outcome) that agreed with the API run"
+        % (exhaustive_upto, rnd_sizes, len(mems), MEM_BIG, STACK_BIG, RZ))
     ctx.coverage["distribution"] = {
         "stack_limit_reported_in_opcode": dict(limit_ops.most_common()),
         "counts": dict(stats),
         "nontrivial_stack": len([1 for x in nontrivial if x[1] == "stack"]),
         "nontrivial_heap": len([1 for x in nontrivial if x[1] == "heap"]),
+        "nontrivial_entry_window": len([1 for x in nontrivial if x[1] == "entry-window"]),
+        "nontrivial_cli": len([1 for x in nontrivial if x[0] == "cli"]),
     }
